@@ -198,10 +198,11 @@ def audit_axioms(module, names, ns):
     out = r.stdout
     res = {}
     ok = r.returncode == 0
-    for m in re.finditer(r"'([^']+)' depends on axioms: \[([^\]]*)\]", out, flags=re.S):
+    # names may themselves end in primes (foo'): match up to the quote that precedes the fixed phrase
+    for m in re.finditer(r"'(\S+?)' depends on axioms: \[([^\]]*)\]", out, flags=re.S):
         axs = [a.strip() for a in m.group(2).replace('\n', ' ').split(',') if a.strip()]
         res[m.group(1)] = axs
-    for m in re.finditer(r"'([^']+)' does not depend on any axioms", out):
+    for m in re.finditer(r"'(\S+?)' does not depend on any axioms", out):
         res[m.group(1)] = []
     bad = {k: v for k, v in res.items() if not set(v) <= ALLOWED_AXIOMS}
     missing = [n for n in names if (f'{ns}.{n}' if ns else n) not in res]
